@@ -18,6 +18,7 @@ def check(pid):
 ALL_FIELDS = ["init", "len", "empty", "cap", "avail", "full", "kind", "fifo", "idx", "front",
               "back", "bits", "ronly", "paren", "padded", "cannest", "nesting", "err", "canmtx",
               "id", "cat", "delim", "sym", "enc", "isenc", "elems", "integ", "locked", "valid", "strsrc", "eqsrc", "umsrc", "loglevels", "aux", "logger"]
+# "less" (Less(0,1), Less(1,0), Less(0,0)) is compared where the instance's values have a defined text (C14)
 
 SM_DEFAULT = dict(Vals=["nil", "a", "b"], MaxLen=3, Caps=[0], Kinds=["AND"], InitOpts=[[]], InitMtx=[False],
                   Fams=["list"], OptFlags=[], PushLens=[1, 2], DstCaps=[0], DstOps=["push", "pop"], IdxMode="existing",
@@ -408,7 +409,7 @@ def sm_check(work, v, prop, tier, tables, traces, fields, design_props, note, fr
     for name, t in traces:
         # thorough: five independent chunks per trace stage (keeps each TLC input below ~300 MB)
         for k in range(1 if tier == "quick" else 5):
-            sm_trace_stage(work, v, findings, prop, harness, "%s%d" % (name, k), dict(t, salt=t.get("salt", 0) + 100 * k), fields, acc)
+            sm_trace_stage(work, v, findings, prop, harness, "%s%d" % (name, k), dict(t, salt=t.get("salt", 0) + 100 * k), t.get("fields", fields), acc)
     for name, t in ctraces:
         for k in range(1 if tier == "quick" else 5):
             cond_trace_stage(work, v, findings, prop, harness, "%s%d" % (name, k), dict(t, salt=t.get("salt", 0) + 100 * k), t.get("fields", COND_FIELDS), acc)
@@ -600,7 +601,7 @@ def c13(work, v, tier):
                     ctraces=[("rand", dict(traces=200 if q else 2000, len=50, fields=["init", "ex", "nesting", "cannest", "bits", "len"]))])
 
 
-C14_FIELDS = ["init", "len", "elems", "err", "integ", "valid", "strsrc", "eqsrc", "umsrc", "kind"]
+C14_FIELDS = ["init", "len", "elems", "err", "integ", "valid", "strsrc", "eqsrc", "umsrc", "kind", "less"]
 
 
 @check("C14")
@@ -610,10 +611,15 @@ def c14(work, v, tier):
                               depth=2, walks=300 if q else 20000, wlen=40))]
     tables.append(("closures", dict(Caps=[0], Kinds=["AND", "OR", "NOT", "LIST", "BASIC"], Vals=["a"], MaxLen=1, PushLens=[1], InitOpts=[[], ["paren"]],
                                     Fams=["closures", "grow", "marshal"], depth=2, walks=300 if q else 20000, wlen=40)))
+    tables.append(("less", dict(Caps=[0], Kinds=["AND"], Vals=["nil", "a", "b", "S", "A"], MaxLen=2 if q else 3, PushLens=[1, 2], InitOpts=[[], ["neg", "fwd"]],
+                                Fams=["lessfn", "grow", "list"], depth=2, walks=300 if q else 20000, wlen=40)))
     tables.append(("cond-closures", dict(machine="cond", KwArgs=["k", ""], OpArgs=["Eq", "nil"], ExArgs=["nil", "s:v", "S"],
                                          CFams=["set", "closures", "life"], COptFlags=[], depth=2, walks=200 if q else 10000)))
+    # Marshal stores a nested Stack whose TEXT the list model abstracts away (value class S / Z): `less` is compared in the traces without it
+    nl = [f for f in C14_FIELDS if f != "less"]
     traces = [("rand", dict(traces=200 if q else 2000, len=60, fams=["list", "policy", "life"], nvals=5, caps="0,1,2,3,5")),
-              ("closures", dict(traces=200 if q else 2000, len=60, fams=["list", "closures", "marshal", "opts"], nvals=4, salt=3))]
+              ("closures", dict(traces=200 if q else 2000, len=60, fams=["list", "closures", "marshal", "opts"], nvals=4, salt=3, fields=nl)),
+              ("less", dict(traces=200 if q else 2000, len=60, fams=["list", "closures", "opts"], nvals=4, salt=5))]
     return sm_check(work, v, "C14", tier, tables, traces, C14_FIELDS,
                     ["StepProps: PolicyDecides (nothing rejected is stored; consult log <= offered; a full stack is never consulted; Err set only after a rejection)",
                      "ClosuresDecide (Valid reports an error exactly when the validity closure does; a rejected stack renders empty; removing a closure restores the "
